@@ -1,3 +1,4 @@
+mod calc;
 mod cval;
 mod extra;
 mod families;
